@@ -46,21 +46,75 @@ type cmodel struct {
 	InitCode  []byte
 	AdminInit string
 	Admin     string
-	Funcs     map[string]map[string]bool   // role -> functions
-	Direct    map[string]map[string]bool   // identity -> role (assigned by the admin)
-	Deleg     map[string]map[string]*deleg // delegate -> role
-	Withdrawn map[string]map[string]bool   // delegate -> role: last delegation was withdrawn
-	Extended  map[string]bool              // role whose function set grew after a delegation of it existed
+	Funcs     map[string]map[string]bool     // role -> functions
+	Direct    map[string]map[string]bool     // identity -> role (assigned by the admin)
+	Deleg     map[string]map[string][]*deleg // delegate -> role -> every accepted delegation that was not withdrawn (one per delegator at most)
+	Withdrawn map[string]map[string]bool     // delegate -> role: a delegation was withdrawn since the last one was created
+	Extended  map[string]bool                // role whose function set grew after a delegation of it existed
 
 	// mirror of what the contract actually stored (used only to predict the contract's
 	// reported outcome of an operation and to label a disagreement; never for the verdict)
 	CodeDirect map[string]map[string]bool
-	Skipped    map[string]map[string]bool // assignment the contract skipped although it reported success
+	CodeDeleg  map[string]map[string]*deleg // delegate -> role: the single entry the contract keeps (last reported-success delegate, dropped by a reported-success withdraw of its root)
+	Skipped    map[string]map[string]bool   // assignment the contract skipped although it reported success
+	RefusedWd  map[string]map[string]bool   // delegate -> role: the contract refused the delegator's withdraw of a live delegation (label only)
 }
 
 func newC(name string) *cmodel {
-	return &cmodel{Name: name, Funcs: map[string]map[string]bool{}, Direct: map[string]map[string]bool{}, Deleg: map[string]map[string]*deleg{},
-		Withdrawn: map[string]map[string]bool{}, Extended: map[string]bool{}, CodeDirect: map[string]map[string]bool{}, Skipped: map[string]map[string]bool{}}
+	return &cmodel{Name: name, Funcs: map[string]map[string]bool{}, Direct: map[string]map[string]bool{}, Deleg: map[string]map[string][]*deleg{},
+		Withdrawn: map[string]map[string]bool{}, Extended: map[string]bool{}, CodeDirect: map[string]map[string]bool{}, CodeDeleg: map[string]map[string]*deleg{}, Skipped: map[string]map[string]bool{}, RefusedWd: map[string]map[string]bool{}}
+}
+
+// best is the delegation of role to id that lasts longest (nil: none on record).
+func (c *cmodel) best(id, role string) *deleg {
+	var b *deleg
+	for _, d := range c.Deleg[id][role] {
+		if b == nil || d.Expiry > b.Expiry {
+			b = d
+		}
+	}
+	return b
+}
+
+// by is the recorded delegation of role to id made by root (nil: none).
+func (c *cmodel) by(id, role, root string) *deleg {
+	for _, d := range c.Deleg[id][role] {
+		if d.Root == root {
+			return d
+		}
+	}
+	return nil
+}
+
+// addDeleg records an accepted delegation.  A delegator has one delegation of a role to an
+// identity: a renewal that lasts at least as long replaces the earlier one (a shorter one is
+// kept beside it, the identity holds the role while any of them is unexpired).
+func (c *cmodel) addDeleg(to, role string, n *deleg) {
+	if c.Deleg[to] == nil {
+		c.Deleg[to] = map[string][]*deleg{}
+	}
+	var keep []*deleg
+	for _, d := range c.Deleg[to][role] {
+		if d.Root != n.Root || d.Expiry > n.Expiry {
+			keep = append(keep, d)
+		}
+	}
+	c.Deleg[to][role] = append(keep, n)
+}
+
+// dropDeleg removes every delegation of role to id made by root.
+func (c *cmodel) dropDeleg(to, role, root string) {
+	var keep []*deleg
+	for _, d := range c.Deleg[to][role] {
+		if d.Root != root {
+			keep = append(keep, d)
+		}
+	}
+	if len(keep) == 0 {
+		delete(c.Deleg[to], role)
+	} else {
+		c.Deleg[to][role] = keep
+	}
 }
 
 func set2(m map[string]map[string]bool, a, b string, v bool) {
@@ -87,6 +141,23 @@ type hist struct {
 	r      *vf.Run
 	dead   bool
 	broken bool // a block commit failed or panicked: do not reuse the ledger
+
+	queue []func() bool // scripted scenario steps still to play (scenario.go)
+	focus []focusRef    // (contract, caller) pairs probed on every function while a scenario plays
+}
+
+type focusRef struct {
+	c      *cmodel
+	caller string
+}
+
+func (h *hist) isFocus(c *cmodel, caller string) bool {
+	for _, f := range h.focus {
+		if f.c == c && f.caller == caller {
+			return true
+		}
+	}
+	return false
 }
 
 func (h *hist) fresh() *txgen.Key {
@@ -225,9 +296,17 @@ func (h *hist) answer(c *cmodel, caller, fn string, keyNo uint64, signers []*txg
 	return roleAnswer(c, caller, fn, now)
 }
 
-// roleAnswer is the role half of the statement (key control assumed).
+// roleAnswer is the role half of the statement (key control assumed): a role with fn that the
+// identity holds directly, or through any delegation that is unexpired (now <= expiry) and was
+// not withdrawn by its delegator.
 func roleAnswer(c *cmodel, caller, fn string, now uint32) (bool, string) {
+	rank := map[string]int{"no-role": 0, "role-without-fn": 1, "withdrawn-delegation": 2, "withdrawn-delegation:the-contract-refused-the-withdraw": 2, "expired-delegation": 3, "expired-delegation@time==expiry+1": 4}
 	why := "no-role"
+	up := func(w string) {
+		if rank[w] > rank[why] {
+			why = w
+		}
+	}
 	for _, role := range sortedKeys(c.Funcs) {
 		holds := c.Funcs[role][fn]
 		if c.Direct[caller][role] {
@@ -238,16 +317,12 @@ func roleAnswer(c *cmodel, caller, fn string, now uint32) (bool, string) {
 				}
 				return true, w
 			}
-			if why == "no-role" {
-				why = "role-without-fn"
-			}
+			up("role-without-fn")
 		}
-		if d := c.Deleg[caller][role]; d != nil {
+		if d := c.best(caller, role); d != nil {
 			switch {
 			case !holds:
-				if why == "no-role" {
-					why = "role-without-fn"
-				}
+				up("role-without-fn")
 			case now <= d.Expiry:
 				w := "delegated-role"
 				if now == d.Expiry {
@@ -258,19 +333,24 @@ func roleAnswer(c *cmodel, caller, fn string, now uint32) (bool, string) {
 				}
 				return true, w
 			case now == d.Expiry+1:
-				why = "expired-delegation@time==expiry+1"
+				up("expired-delegation@time==expiry+1")
+			case c.Withdrawn[caller][role]:
+				up(wdLabel(c, caller, role)) // another delegator's expired delegation is still on record
 			default:
-				if why != "expired-delegation@time==expiry+1" {
-					why = "expired-delegation"
-				}
+				up("expired-delegation")
 			}
 		} else if holds && c.Withdrawn[caller][role] {
-			if why == "no-role" || why == "role-without-fn" {
-				why = "withdrawn-delegation"
-			}
+			up(wdLabel(c, caller, role))
 		}
 	}
 	return false, why
+}
+
+func wdLabel(c *cmodel, caller, role string) string {
+	if c.RefusedWd[caller][role] {
+		return "withdrawn-delegation:the-contract-refused-the-withdraw"
+	}
+	return "withdrawn-delegation"
 }
 
 // what the contract's own bookkeeping says about "has role" (its getAuthToken uses now < expiry)
@@ -278,7 +358,7 @@ func (c *cmodel) codeHas(id, role string, now uint32) (bool, uint64) {
 	if c.CodeDirect[id][role] {
 		return true, 2
 	}
-	if d := c.Deleg[id][role]; d != nil && now < d.Expiry {
+	if d := c.CodeDeleg[id][role]; d != nil && now < d.Expiry {
 		return true, d.Level
 	}
 	return false, 0
@@ -466,9 +546,13 @@ func (h *hist) stepAssignFuncs(c *cmodel) {
 		fl = append(fl, fns[h.rng.Intn(len(fns)-1)])
 	}
 	ap, keyNo, signers, class := h.adminParam(c)
+	h.doAssignFuncs(c, role, fl, ap, keyNo, signers, class)
+}
+
+func (h *hist) doAssignFuncs(c *cmodel, role string, fl []string, ap string, keyNo uint64, signers []*txgen.Key, class string) bool {
 	res, ok := h.commit1(authCode("assignFuncsToRole", &auth.FuncsToRoleParam{ContractAddr: c.Addr, AdminOntID: []byte(ap), Role: []byte(role), FuncNames: fl, KeyNo: keyNo}), signers, h.nextTs())
 	if !ok {
-		return
+		return false
 	}
 	rep := reported(res, "assignFuncsToRole")
 	legit := c.Admin != "" && ap == c.Admin && h.m.KeyControl(ap, keyNo, signers)
@@ -476,7 +560,7 @@ func (h *hist) stepAssignFuncs(c *cmodel) {
 		for _, f := range fl {
 			if !c.Funcs[role][f] {
 				for _, dm := range c.Deleg {
-					if dm[role] != nil {
+					if len(dm[role]) > 0 {
 						c.Extended[role] = true
 					}
 				}
@@ -486,34 +570,40 @@ func (h *hist) stepAssignFuncs(c *cmodel) {
 	}
 	h.outcome(map[string]interface{}{"op": "assignFuncsToRole", "contract": c.Name, "admin_param": ap, "role": role, "funcs": fl, "keyNo": keyNo, "class": class, "tx_signers": labels(signers), "time": h.env.LastTs},
 		"assignFuncsToRole", class, rep, legit, legit)
+	return rep
 }
 
 func (h *hist) stepAssignIDs(c *cmodel) {
 	role := roles[h.rng.Intn(len(roles))]
 	n := h.rng.Range(1, 2)
 	var ps []string
-	var pb [][]byte
 	for i := 0; i < n; i++ {
-		p := h.ids[h.rng.Intn(len(h.ids))]
-		ps = append(ps, p)
-		pb = append(pb, []byte(p))
+		ps = append(ps, h.ids[h.rng.Intn(len(h.ids))])
 	}
 	// often: assign a role to an identity that currently holds it only by delegation
 	if h.rng.Chance(50) {
 		for _, to := range h.ids {
 			for _, rl := range roles {
-				if d := c.Deleg[to][rl]; d != nil && !c.Direct[to][rl] && d.Expiry > h.env.LastTs+3 {
-					role, ps, pb = rl, []string{to}, [][]byte{[]byte(to)}
+				if d := c.best(to, rl); d != nil && !c.Direct[to][rl] && d.Expiry > h.env.LastTs+3 {
+					role, ps = rl, []string{to}
 					h.r.Count("shape/assign-role-to-its-current-delegate")
 				}
 			}
 		}
 	}
 	ap, keyNo, signers, class := h.adminParam(c)
+	h.doAssignIDs(c, role, ps, ap, keyNo, signers, class)
+}
+
+func (h *hist) doAssignIDs(c *cmodel, role string, ps []string, ap string, keyNo uint64, signers []*txgen.Key, class string) bool {
+	var pb [][]byte
+	for _, p := range ps {
+		pb = append(pb, []byte(p))
+	}
 	ts := h.nextTs()
 	res, ok := h.commit1(authCode("assignOntIDsToRole", &auth.OntIDsToRoleParam{ContractAddr: c.Addr, AdminOntID: []byte(ap), Role: []byte(role), Persons: pb, KeyNo: keyNo}), signers, ts)
 	if !ok {
-		return
+		return false
 	}
 	rep := reported(res, "assignOntIDsToRole")
 	legit := c.Admin != "" && ap == c.Admin && h.m.KeyControl(ap, keyNo, signers)
@@ -533,6 +623,7 @@ func (h *hist) stepAssignIDs(c *cmodel) {
 	}
 	h.outcome(map[string]interface{}{"op": "assignOntIDsToRole", "contract": c.Name, "admin_param": ap, "role": role, "persons": ps, "keyNo": keyNo, "class": class, "tx_signers": labels(signers), "time": h.env.LastTs},
 		"assignOntIDsToRole", class, rep, legit, legit)
+	return rep
 }
 
 func (h *hist) holders(c *cmodel, role string, direct bool) []string {
@@ -541,7 +632,7 @@ func (h *hist) holders(c *cmodel, role string, direct bool) []string {
 		if direct && c.Direct[id][role] {
 			out = append(out, id)
 		}
-		if !direct && !c.Direct[id][role] && c.Deleg[id][role] != nil {
+		if !direct && !c.Direct[id][role] && len(c.Deleg[id][role]) > 0 {
 			out = append(out, id)
 		}
 	}
@@ -596,7 +687,7 @@ func (h *hist) stepDelegate(c *cmodel) {
 	case "from-holds-nothing":
 		var no []string
 		for _, id := range h.ids {
-			if !c.Direct[id][role] && c.Deleg[id][role] == nil {
+			if !c.Direct[id][role] && len(c.Deleg[id][role]) == 0 {
 				no = append(no, id)
 			}
 		}
@@ -621,7 +712,7 @@ func (h *hist) stepDelegate(c *cmodel) {
 	// to: somebody without the role (or with it, for to-already-holds)
 	var cands []string
 	for _, id := range h.ids {
-		has := c.Direct[id][role] || c.Deleg[id][role] != nil
+		has := c.Direct[id][role] || len(c.Deleg[id][role]) > 0
 		if id != from && has == (shape == "to-already-holds") {
 			cands = append(cands, id)
 		}
@@ -638,12 +729,15 @@ func (h *hist) stepDelegate(c *cmodel) {
 			}
 		}
 	}
-	class := h.ctlClass()
+	h.doDelegate(c, from, to, role, period, level, h.ctlClass(), shape, h.nextTs())
+}
+
+// doDelegate commits one delegate transaction at block time ts and follows it in the model.
+func (h *hist) doDelegate(c *cmodel, from, to, role string, period, level uint64, class, shape string, ts uint32) bool {
 	keyNo, signers, class := h.control(from, class)
-	ts := h.nextTs()
 	res, ok := h.commit1(authCode("delegate", &auth.DelegateParam{ContractAddr: c.Addr, From: []byte(from), To: []byte(to), Role: []byte(role), Period: period, Level: level, KeyNo: keyNo}), signers, ts)
 	if !ok {
-		return
+		return false
 	}
 	rep := reported(res, "delegate")
 	fits := period <= 0xffffffff && uint64(ts)+period <= 0xffffffff
@@ -651,18 +745,23 @@ func (h *hist) stepDelegate(c *cmodel) {
 	fromHas, fromLevel := c.codeHas(from, role, ts)
 	toHas, _ := c.codeHas(to, role, ts)
 	predicted := h.m.KeyControl(from, keyNo, signers) && fits && fromHas && !toHas && fromLevel == 2 && level == 1
-	if rep && legit {
-		if c.Deleg[to] == nil {
-			c.Deleg[to] = map[string]*deleg{}
+	if rep {
+		if c.CodeDeleg[to] == nil {
+			c.CodeDeleg[to] = map[string]*deleg{}
 		}
-		c.Deleg[to][role] = &deleg{Root: from, Level: level, Expiry: ts + uint32(period)}
+		c.CodeDeleg[to][role] = &deleg{Root: from, Level: level, Expiry: ts + uint32(period)}
+	}
+	if rep && legit {
+		c.addDeleg(to, role, &deleg{Root: from, Level: level, Expiry: ts + uint32(period)})
 		set2(c.Withdrawn, to, role, false)
+		set2(c.RefusedWd, to, role, false)
 		c.Extended[role] = false
 		h.r.Count("delegation-created")
 	}
 	h.outcome(map[string]interface{}{"op": "delegate", "contract": c.Name, "from": from, "to": to, "role": role, "period": period, "level": level, "keyNo": keyNo,
 		"shape": shape, "class": class, "tx_signers": labels(signers), "time": h.env.LastTs, "expiry": uint64(ts) + period},
 		"delegate", shape+"/"+class, rep, predicted, legit)
+	return rep
 }
 
 func (h *hist) stepWithdraw(c *cmodel) {
@@ -670,7 +769,7 @@ func (h *hist) stepWithdraw(c *cmodel) {
 	var ds []dref
 	for _, to := range h.ids {
 		for _, role := range roles {
-			if c.Deleg[to][role] != nil {
+			if len(c.Deleg[to][role]) > 0 {
 				ds = append(ds, dref{to, role})
 			}
 		}
@@ -683,7 +782,8 @@ func (h *hist) stepWithdraw(c *cmodel) {
 	} else {
 		d := ds[h.rng.Intn(len(ds))]
 		delegate, role = d.to, d.role
-		initiator = c.Deleg[delegate][role].Root
+		root := c.best(delegate, role).Root
+		initiator = root
 		if h.rng.Chance(25) {
 			shape = "non-root"
 			var others []string
@@ -698,31 +798,51 @@ func (h *hist) stepWithdraw(c *cmodel) {
 					initiator = id
 				}
 			}
-			if initiator == c.Deleg[delegate][role].Root {
+			if initiator == root {
 				initiator = others[h.rng.Intn(len(others))]
+			}
+			if c.by(delegate, role, initiator) != nil {
+				shape = "root-of-an-older-delegation"
 			}
 		}
 	}
-	class := h.ctlClass()
+	h.doWithdraw(c, initiator, delegate, role, h.ctlClass(), shape, h.nextTs())
+}
+
+// doWithdraw commits one withdraw transaction at block time ts and follows it in the model: a
+// delegator that proved its key withdraws its own delegation(s) of the role to the delegate.
+func (h *hist) doWithdraw(c *cmodel, initiator, delegate, role, class, shape string, ts uint32) bool {
 	keyNo, signers, class := h.control(initiator, class)
-	ts := h.nextTs()
 	res, ok := h.commit1(authCode("withdraw", &auth.WithdrawParam{ContractAddr: c.Addr, Initiator: []byte(initiator), Delegate: []byte(delegate), Role: []byte(role), KeyNo: keyNo}), signers, ts)
 	if !ok {
-		return
+		return false
 	}
 	rep := reported(res, "withdraw")
-	d := c.Deleg[delegate][role]
-	legit := h.m.KeyControl(initiator, keyNo, signers) && d != nil && d.Root == initiator
+	legit := h.m.KeyControl(initiator, keyNo, signers) && c.by(delegate, role, initiator) != nil
 	iniHas, _ := c.codeHas(initiator, role, ts)
-	predicted := legit && iniHas
-	if rep && legit {
-		delete(c.Deleg[delegate], role)
+	cd := c.CodeDeleg[delegate][role]
+	predicted := h.m.KeyControl(initiator, keyNo, signers) && iniHas && cd != nil && cd.Root == initiator
+	if rep && cd != nil && cd.Root == initiator {
+		delete(c.CodeDeleg[delegate], role)
+	}
+	// A delegator that proved its key and withdraws its own delegation has withdrawn it: from
+	// here on the delegate does not hold the role through it, whatever the contract reported
+	// (a refusal would leave a withdrawn delegation in force; the probes show whether it does).
+	if legit {
+		if d := c.by(delegate, role, initiator); !rep && ts <= d.Expiry {
+			set2(c.RefusedWd, delegate, role, true)
+			h.r.Count("withdraw-of-live-delegation-by-its-delegator-refused")
+		}
+		c.dropDeleg(delegate, role, initiator)
 		set2(c.Withdrawn, delegate, role, true)
-		h.r.Count("delegation-withdrawn")
+		if rep {
+			h.r.Count("delegation-withdrawn")
+		}
 	}
 	h.outcome(map[string]interface{}{"op": "withdraw", "contract": c.Name, "initiator": initiator, "delegate": delegate, "role": role, "keyNo": keyNo,
 		"shape": shape, "class": class, "tx_signers": labels(signers), "time": h.env.LastTs},
 		"withdraw", shape+"/"+class, rep, predicted, legit)
+	return rep
 }
 
 // stepKey changes an identity's keys through the ontid contract (right signer).
@@ -779,10 +899,12 @@ func (h *hist) stepTime() {
 	best := uint32(0)
 	for _, c := range h.cs {
 		for _, dm := range c.Deleg {
-			for _, d := range dm {
-				for _, t := range []uint32{d.Expiry - 1, d.Expiry} { // pre-exec time = ts+1
-					if t > last && (best == 0 || t < best) {
-						best = t
+			for _, dl := range dm {
+				for _, d := range dl {
+					for _, t := range []uint32{d.Expiry - 1, d.Expiry} { // pre-exec time = ts+1
+						if t > last && (best == 0 || t < best) {
+							best = t
+						}
 					}
 				}
 			}
@@ -793,6 +915,11 @@ func (h *hist) stepTime() {
 	if best != 0 && h.rng.Chance(85) {
 		ts, kind = best, "to-boundary"
 	}
+	h.doTime(ts, kind)
+}
+
+// doTime commits a block at time ts that carries verifyToken transactions.
+func (h *hist) doTime(ts uint32, kind string) {
 	// in-block probes: delegates whose expiry is near, else random tuples
 	type probe struct {
 		c      *cmodel
@@ -805,7 +932,7 @@ func (h *hist) stepTime() {
 	for _, c := range h.cs {
 		for _, to := range h.ids {
 			for _, role := range roles {
-				d := c.Deleg[to][role]
+				d := c.best(to, role)
 				if d == nil || len(ps) >= 3 || (ts != d.Expiry && ts != d.Expiry+1 && ts+1 != d.Expiry) {
 					continue
 				}
@@ -904,7 +1031,7 @@ func (h *hist) probeAll() {
 				// every tuple whose role half is (or recently was) positive is probed; the
 				// plain negatives ("no role at all") are sampled
 				ok, why := roleAnswer(c, caller, fn, now)
-				if !ok && (why == "no-role" || why == "role-without-fn") && !h.rng.Chance(12) {
+				if !ok && (why == "no-role" || why == "role-without-fn") && !h.isFocus(c, caller) && !h.rng.Chance(12) {
 					continue
 				}
 				keyNo, sg, _ := h.control(caller, "right")
@@ -941,6 +1068,44 @@ func (h *hist) probeAll() {
 }
 
 // ---------------------------------------------------------------- history
+
+// stepRandom plays one step of the random walk.
+func (h *hist) stepRandom() {
+	c := h.cs[h.rng.Intn(len(h.cs))]
+	p := h.rng.Intn(100)
+	switch {
+	case c.Admin == "" && p < 85:
+		h.stepInit(c)
+	case c.Admin == "":
+		// operations on a contract without admin must all fail
+		switch h.rng.Intn(4) {
+		case 0:
+			h.stepAssignFuncs(c)
+		case 1:
+			h.stepAssignIDs(c)
+		case 2:
+			h.stepDelegate(c)
+		default:
+			h.stepTransfer(c)
+		}
+	case p < 2:
+		h.stepInit(c)
+	case p < 6:
+		h.stepTransfer(c)
+	case p < 20:
+		h.stepAssignFuncs(c)
+	case p < 36:
+		h.stepAssignIDs(c)
+	case p < 62:
+		h.stepDelegate(c)
+	case p < 72:
+		h.stepWithdraw(c)
+	case p < 93:
+		h.stepTime()
+	default:
+		h.stepKey()
+	}
+}
 
 func runHistory(r *vf.Run, pool *iddrv.Pool, idx int, rng *vf.RNG, nSteps int) {
 	env, err := pool.Get()
@@ -1023,41 +1188,29 @@ func runHistory(r *vf.Run, pool *iddrv.Pool, idx int, rng *vf.RNG, nSteps int) {
 	}
 	h.probeAll()
 
-	for n := 0; n < nSteps && !h.dead; n++ {
-		c := h.cs[h.rng.Intn(len(h.cs))]
-		p := h.rng.Intn(100)
-		switch {
-		case c.Admin == "" && p < 85:
-			h.stepInit(c)
-		case c.Admin == "":
-			// operations on a contract without admin must all fail
-			switch h.rng.Intn(4) {
-			case 0:
-				h.stepAssignFuncs(c)
-			case 1:
-				h.stepAssignIDs(c)
-			case 2:
-				h.stepDelegate(c)
-			default:
-				h.stepTransfer(c)
+	// one scripted scenario (scenario.go) is played at a seeded point of the walk of every second
+	// history; its steps do not count as steps of the walk
+	scenAt := h.rng.Range(0, nSteps*2/3)
+	if idx%2 != 0 {
+		scenAt = -1 // every second history plays one
+	}
+	for n := 0; n < nSteps && !h.dead; {
+		if len(h.queue) > 0 {
+			f := h.queue[0]
+			h.queue = h.queue[1:]
+			if f() && !h.dead {
+				h.r.Count("scenario-steps")
+				h.probeAll()
 			}
-		case p < 2:
-			h.stepInit(c)
-		case p < 6:
-			h.stepTransfer(c)
-		case p < 20:
-			h.stepAssignFuncs(c)
-		case p < 36:
-			h.stepAssignIDs(c)
-		case p < 62:
-			h.stepDelegate(c)
-		case p < 72:
-			h.stepWithdraw(c)
-		case p < 93:
-			h.stepTime()
-		default:
-			h.stepKey()
+			continue
 		}
+		if n == scenAt {
+			scenAt = -1
+			h.enqueueScenario(idx / 2)
+			continue
+		}
+		h.stepRandom()
+		n++
 		if h.dead {
 			return
 		}
@@ -1073,7 +1226,7 @@ func runHistory(r *vf.Run, pool *iddrv.Pool, idx int, rng *vf.RNG, nSteps int) {
 
 func main() {
 	r := vf.NewRun("C41", "exploration",
-		"seeded histories of ~30 state-changing steps over 4 registered ONT IDs and 2 contracts (one addressed by its init script, one deployed NeoVM proxy): initContractAdmin, transfer, assignFuncsToRole, assignOntIDsToRole, delegate (shapes: right, delegate-of-delegate, level 0/2/3+, to-already-holds, period 0/1/overflow/2^32), withdraw (root / non-root / none), ontid key add/revoke/ID revoke, time steps landing the clock exactly on expiry and expiry+1; signer classes right / extra / no-signature / wrong keyNo / revoked key / empty; after every step verifyToken is pre-executed for all (contract, caller, fn) with the caller's key plus 5 key-control variants, boundary blocks also carry verifyToken transactions; a case = one verifyToken evaluation, distinct by (model reason, variant, answer, mode, contract)")
+		"seeded histories of ~30 state-changing steps over 4 registered ONT IDs and 2 contracts (one addressed by its init script, one deployed NeoVM proxy): initContractAdmin, transfer, assignFuncsToRole, assignOntIDsToRole, delegate (shapes: right, delegate-of-delegate, level 0/2/3+, to-already-holds, period 0/1/overflow/2^32), withdraw (root / non-root / none), ontid key add/revoke/ID revoke, time steps landing the clock exactly on expiry and expiry+1; signer classes right / extra / no-signature / wrong keyNo / revoked key / empty; after every step verifyToken is pre-executed for all (contract, caller, fn) with the caller's key plus 5 key-control variants, boundary blocks also carry verifyToken transactions; every second history also plays, at a seeded point of its walk, one scripted multi-step scenario generated against the state it meets (S1: a second delegator takes over a delegate whose first delegation expired, then withdrawals by the new, the former and a non-delegator, re-delegation; S2: two delegators on one delegate while the first is live / at the expiry second / after a withdrawal; S3: renewal by the same delegator while live / at expiry / after expiry / after withdrawal; S4: delegate-of-delegate chains with the middle live, withdrawn or expired, then a proper delegation that the chain members cannot withdraw; family and main variant are stratified over the history index); a case = one verifyToken evaluation, distinct by (model reason, variant, answer, mode, contract)")
 	scratch := vf.Scratch("c41")
 	defer os.RemoveAll(scratch)
 	nHist := vf.N(300, 3000)
@@ -1099,6 +1252,30 @@ func main() {
 	}
 	r.Require("answer/true/delegated-role:fn-set-extended-later", 3)
 	r.Require("shape/assign-role-to-its-current-delegate", 3)
+	// scripted scenarios (scenario.go): every family, every main variant and the decisive moments
+	// of each must have been played (the counts are those of the unchanged contract's behaviour)
+	for k, min := range map[string]int64{
+		"S1/completed": 20, "S2/completed": 10, "S3/completed": 10, "S4/completed": 10,
+		"S1/cast:a-is-admin": 5, "S1/cast:a-is-not-admin": 5, "S1/cast:x-is-fresh": 5, "S1/cast:x-is-a-member": 5,
+		"S1/end=b": 3, "S1/end=b,a": 3, "S1/end=a": 3, "S1/end=a,b": 3, "S1/end=o,b": 3, "S1/end=o": 3, "S1/end=b,redelegate-b,b": 3, "S1/end=b,redelegate-a,b,a": 3, "S1/end=none": 3,
+		"S1/second-delegation:while-first-live=false": 5, "S1/second-delegation@time==expiry=true": 5, "S1/second-delegation@time==expiry+1=true": 5, "S1/second-delegation@later=true": 5,
+		"S1/x-holds-by-second-delegation": 20, "S1/x-denied-after-withdraw-by-delegator": 10, "S1/x-still-holds-after-withdraw-by-former-delegator": 5,
+		"S1/x-still-holds-after-withdraw-by-non-delegator": 3, "S1/non-delegator:direct-holder": 1, "S1/re-delegation-by-delegator=true": 2, "S1/re-delegation-by-former-delegator=true": 2,
+		"S1/run-out:delegate-holds-at-time==expiry=true": 5, "S1/run-out:delegate-holds-after-expiry=false": 20,
+		"S2/variant=b-withdraws,first-runs-out": 3, "S2/variant=a-withdraws,b-delegates": 3, "S2/variant=second-at-expiry-instant": 3, "S2/variant=first-runs-out,second,first-again": 3,
+		"S2/second-delegation:first-live=false": 10, "S2/second-delegation:first-at-time==expiry=true": 3, "S2/second-delegation:first-expired=true": 3, "S2/second-delegation:first-withdrawn=true": 3,
+		"S2/x-holds-after-withdraw-by-first-delegator-after-expiry=true": 5, "S2/x-holds-after-withdraw-by-second-delegator=false": 3, "S2/x-holds-after-withdraw-by-refused-second-delegator=true": 3,
+		"S2/run-out:delegate-holds-at-time==expiry=true": 5,
+		"S3/variant=renew-while-live,run-out":            3, "S3/variant=renew-while-live,withdraw": 3, "S3/variant=renew-at-expiry-instant": 3, "S3/variant=renew-after-expiry": 3, "S3/variant=withdraw,renew": 3,
+		"S3/renew-while-live=false": 5, "S3/renew-at-time==expiry=true": 3, "S3/renew-after-expiry=true": 3, "S3/renew-after-withdraw=true": 3, "S3/x-holds-after-withdraw=false": 8,
+		"S3/run-out:delegate-holds-at-time==expiry=true": 3,
+		"S4/variant=middle-live":                         5, "S4/variant=middle-withdrawn": 5, "S4/variant=middle-expires": 5,
+		"S4/chain:middle-live=false": 10, "S4/chain:middle-withdrawn=false": 5, "S4/chain:middle-at-time==expiry=false": 5, "S4/chain:middle-expired=false": 5,
+		"S4/chain:level-0=false": 3, "S4/chain:level-1=false": 5, "S4/chain:level-2=false": 3, "S4/y-holds-nothing-after-chain-attempt": 20,
+		"S4/y-holds-by-proper-delegation": 10, "S4/y-holds-after-withdraw-by-middle=true": 3, "S4/y-holds-after-withdraw-by-delegator=false": 3,
+	} {
+		r.Require("scenario/"+k, min)
+	}
 	mmMu.Lock()
 	r.Extra("op_outcome_mismatches", mismatches)
 	if len(mmSample) > 0 {
@@ -1119,7 +1296,8 @@ func main() {
 	mmMu.Unlock()
 	r.Extra("boundary_convention", "statement: valid while now <= expiry; the contract's verifyToken agrees (skips a token only when expireTime < now); its getAuthToken (used by delegate/withdraw/assign) uses now < expireTime")
 	r.Assume("\"proved control of its key\" = ontid.verifySignature: identity valid, key keyNo exists and is not revoked, its address is in the transaction's witness set (authentication right not required)")
-	r.Assume("which authorised operations the contract chooses to refuse (e.g. delegating to somebody who already holds the role) is not judged: the model follows the contract's reported outcome for operations that are legitimate by the statement, ignores reported successes that are not, and the verifyToken probes decide")
+	r.Assume("delegations of one role to one identity by different delegators are independent: the identity holds the role while any of them is unexpired and was not withdrawn; a withdraw is the initiator withdrawing its own delegation(s) and touches nobody else's (the unchanged contract keeps one entry per delegate and role and refuses a second delegation while one is live, so two are on record together only when the second was accepted at the very second the first ends)")
+	r.Assume("which authorised operations the contract chooses to refuse (e.g. delegating to somebody who already holds the role) is not judged: the model follows the contract's reported outcome for assignments and delegations that are legitimate by the statement, ignores reported successes that are not, and the verifyToken probes decide; the one exception is a withdraw by the delegator itself (key proved): it ends the delegation in the model whatever the contract reports, because a refusal there leaves the delegate authorised through a delegation its delegator withdrew (never refused by the unchanged contract: counter withdraw-of-live-delegation-by-its-delegator-refused)")
 	pool.Close()
 	os.RemoveAll(scratch)
 	r.Finish()
